@@ -338,3 +338,18 @@ func (c *Ctx) RetIsCmp(fn *ssa.Function, detail, x, op, y string) {
 		c.Report(fn, detail, c.InstrPos(r), ok, "returns "+c.D(v)+"; wanted "+x+" "+op+" "+y)
 	}
 }
+
+// ClosureWithStore finds the function nested in parent that stores to an address matching pat.
+func (c *Ctx) ClosureWithStore(parent *ssa.Function, pat string) *ssa.Function {
+	if parent == nil {
+		return nil
+	}
+	for _, fn := range WithClosures(parent) {
+		if fn != parent && len(c.StoresD(fn, pat)) > 0 {
+			c.touch(fn)
+			return fn
+		}
+	}
+	c.Unresolved(parent, "closure storing "+pat, "no closure of "+c.FuncKey(parent)+" stores to "+pat)
+	return nil
+}
